@@ -12,15 +12,16 @@ FUNCTIONS = ['emd.cycles.get_cycle_vector(return_good=True, mask=...)', 'emd.cyc
              'emd.support.ensure_2d / ensure_equal_dims / ensure_vector']
 BOUNDS = {
     'quick': 'N <= 5 symbolic real phases in [0,2pi) (N=6 without mask), symbolic phase_edge in (0,pi/2], '
-             'symbolic boolean mask of length N (or none), phase_step = 1.5pi; container built from N <= 4 phases with >= 1 wrap',
+             'symbolic boolean mask of length N (or none), phase_step = 1.5pi; container built from N <= 4 phases with >= 1 wrap; is_good on one segment of N <= 3 symbolic phases in [-1, 2pi+1] (one-sided edge criteria)',
     'thorough': 'N <= 7 (no mask), N <= 6 (symbolic mask); container N <= 5; symbolic phase_edge',
 }
 OUTSIDE = 'longer series; waveform/control-point criterion (imf argument); phases exactly on the edge tolerance are not ' \
           'asserted either way (the statement leaves strictness open)'
-ASSUMPTIONS = ['phases already wrapped into [0,2pi)', 'phase_step fixed to its default 1.5*pi in this check (C12 varies it)']
+ASSUMPTIONS = ['phases already wrapped into [0,2pi) for the vector and container clauses (the is_good unit clause also covers values just outside)', 'phase_step fixed to its default 1.5*pi in this check (C12 varies it)']
 REQUIRED_CLASSES = ['good-segment', 'bad-segment:not-increasing', 'bad-segment:start', 'bad-segment:end', 'bad-segment:mask',
-                    'container-built']
-EXPECTED_LABELS = ['never-raises', 'good-labels-match-criteria', 'good-is-renumbered-subset-of-all', 'container-flag-matches-criteria']
+                    'container-built', 'unit:start-below-zero', 'unit:end-above-2pi']
+EXPECTED_LABELS = ['never-raises', 'good-labels-match-criteria', 'good-is-renumbered-subset-of-all', 'container-flag-matches-criteria',
+                   'is_good-matches-criteria']
 BUDGET_S = {'quick': 150, 'thorough': 900}
 
 TWO_PI = 2 * math.pi
@@ -39,6 +40,9 @@ def configs(tier):
         out.append(("vector-N%d-%s" % (n, 'mask' if m else 'nomask'), {'kind': 'vector', 'N': n, 'mask': m}))
     for n in cont:
         out.append(("container-N%d" % n, {'kind': 'container', 'N': n}))
+    # the criteria themselves on one segment, also for phase values outside [0, 2pi]: 'above 0' and 'below 2pi' are one-sided
+    for n in ((2, 3) if tier == 'quick' else (2, 3, 4, 5)):
+        out.append(("is_good-N%d" % n, {'kind': 'isgood', 'N': n}))
     return out
 
 
@@ -75,7 +79,32 @@ def criteria(h, p, s, e, edge, mask):
     return weak, strong
 
 
+def isgood(h):
+    N = h.params['N']
+    p = h.reals('p', N, lo=-1, hi=TWO_PI + 1)
+    edge = h.real('edge', lo=0, hi=math.pi / 2, lo_open=True)
+    try:
+        got = bool(emd.cycles.is_good(p, phase_edge=edge))
+    except Exception as e:
+        h.fail('never-raises', "is_good: %s: %s" % (type(e).__name__, e))
+        return
+    incr = all(bool(p[i + 1] > p[i]) for i in range(N - 1))
+    st_weak = bool(p[0] >= 0) and bool(p[0] <= edge)
+    st_strong = bool(p[0] > 0) and bool(p[0] < edge)
+    en_weak = bool(p[-1] <= TWO_PI) and bool(p[-1] >= TWO_PI - edge)
+    en_strong = bool(p[-1] < TWO_PI) and bool(p[-1] > TWO_PI - edge)
+    if bool(p[0] < 0):
+        h.note('unit:start-below-zero')
+    if bool(p[-1] > TWO_PI):
+        h.note('unit:end-above-2pi')
+    weak = incr and st_weak and en_weak
+    strong = incr and st_strong and en_strong
+    h.check(got if strong else (not got if not weak else True), 'is_good-matches-criteria', (got, incr, st_weak, en_weak))
+
+
 def harness(h):
+    if h.params['kind'] == 'isgood':
+        return isgood(h)
     N = h.params['N']
     p = h.reals('p', N, lo=0, hi=TWO_PI, hi_open=True)
     edge = h.real('edge', lo=0, hi=math.pi / 2, lo_open=True)
